@@ -31,6 +31,8 @@ def lattice(tier):
             (False, True), (None, False, True), (False, True), vols, (True, False), ('Model', 'Interface'),
             list(models()), grids):
         out.append(dict(stochastic=stochastic, delay=delay, safe=safe, volume=vol, dataframe=df, via=via, model=mname, n=n))
+        if n == grids[0]:
+            out.append(dict(stochastic=stochastic, delay=delay, safe=safe, volume=vol, dataframe=df, via=via, model=mname, n=n, second_call=True))
     return out
 
 
@@ -74,6 +76,11 @@ def run_one(c, opt):
         c.violation(key + what, msg, dict(opt=opt))
     try:
         res = py_simulate_model(times, **kw)
+        if opt.get('second_call'):
+            # the same Model / interface again (a fresh volume object): the contract holds for every call, not only the first
+            kw['volume'] = make_volume(opt['volume'], m)
+            br.py_seed_random(54321)
+            res = py_simulate_model(times, **kw)
     except BaseException as e:
         tb = traceback.extract_tb(e.__traceback__)
         inner = tb[-1].name if tb else ''
@@ -88,7 +95,7 @@ def run_one(c, opt):
             c.nontrivial(('rejected', opt['stochastic'], opt['delay'], opt['volume']))
         return
     c.count('returned')
-    c.nontrivial((opt['stochastic'], opt['delay'], opt['safe'], opt['volume'], opt['dataframe'], opt['via'], opt['model']))
+    c.nontrivial((opt['stochastic'], opt['delay'], opt['safe'], opt['volume'], opt['dataframe'], opt['via'], opt['model'], bool(opt.get('second_call'))))
     species = m.get_species_list()
     uses_volume = opt['volume'] != 'False' and (opt['stochastic'] or opt['delay'])
     if opt['dataframe']:
@@ -148,7 +155,7 @@ def run(ctx):
     ctx.rule = ('E3/product lattice, exhaustive: {stochastic} x {delay None/False/True} x {safe} x {volume False/True/number/Volume object/'
                 'initialised growing volume (thorough: + dividing)} x {data frame, result object} x {Model, pre-built interface} x 4 models '
                 '(plain, delayed reaction, assignment rule, both) x grid lengths; every call is made on the real py_simulate_model under a '
-                'fixed seed. Oracle: a returned result has the requested time axis (prefix if divided), one column per species in model '
+                'fixed seed, and for one grid length the same call is repeated on the same Model / interface. Oracle: a returned result has the requested time axis (prefix if divided), one column per species in model '
                 'order (+volume when a volume is used), first row = initial condition with rules applied; a refusal must be a ValueError/'
                 'TypeError naming an option (or NotImplementedError raised by the entry point itself). states = transitions = calls; '
                 'non-trivial = distinct (option tuple, model) that returned, plus distinct rejected option classes.')
